@@ -33,6 +33,9 @@ type MethodType struct {
 	TypePackage string
 	IsPointer   bool
 	IsVariadic  bool
+	// GoType is the type itself (the element type for a variadic parameter);
+	// nil in hand-built models, which are then compared by name
+	GoType types.Type
 }
 
 // LoadTypes loads specified named types from the current package
@@ -192,6 +195,7 @@ func convertTypesToMethodType(t types.Type) MethodType {
 	if ptr, ok := t.(*types.Pointer); ok {
 		inner := convertTypesToMethodType(ptr.Elem())
 		inner.IsPointer = true
+		inner.GoType = t
 		return inner
 	}
 
@@ -209,6 +213,7 @@ func convertTypesToMethodType(t types.Type) MethodType {
 			TypePackage: pkgPath,
 			IsPointer:   false,
 			IsVariadic:  false,
+			GoType:      t,
 		}
 	}
 
@@ -219,6 +224,7 @@ func convertTypesToMethodType(t types.Type) MethodType {
 			TypePackage: "",
 			IsPointer:   false,
 			IsVariadic:  false,
+			GoType:      t,
 		}
 	}
 
@@ -227,5 +233,6 @@ func convertTypesToMethodType(t types.Type) MethodType {
 		TypeName:   t.String(),
 		IsPointer:  false,
 		IsVariadic: false,
+		GoType:     t,
 	}
 }
